@@ -1,6 +1,7 @@
 import Hive.Model.Events
 import Hive.Model.EventsIter
 import Hive.Model.EventsRelink
+import Hive.Model.EventsMaxN
 import Hive.Model.EventsPromise
 import Hive.Model.EventsNotifier
 import Hive.Model.EventsNotifierRace
@@ -27,6 +28,7 @@ def dstep (s : DSt) (toks : List String) : DSt × String :=
   | "pt" :: r => (s, EventsSpec.checkPT r)
   | "hw" :: r => (s, EventsSpec.checkHW r)
   | "hc" :: r => (s, EventsSpec.checkHC r)
+  | "mn" :: r => (s, EventsMaxN.nestedLine r)
   | "lk" :: r => (s, EventsSpec.checkLK r)
   | "lm" :: r => (s, EventsSpec.checkLM r)
   | "vc" :: _ => (s, "begun")   -- concurrent Listener creation: the round follows as `vn` lines
